@@ -311,12 +311,16 @@ func toValue(value interface{}) Value {
 	case *object:
 		return Value{kind: valueObject, value: value}
 	case *Object:
-		if value == nil {
-			// A nil pointer is undefined, like the nil pointers of the reflect arm below.
+		if value == nil || value.object == nil {
+			// A nil pointer is undefined, like the nil pointers of the reflect arm below;
+			// so is an Object that holds no object (the zero value).
 			return Value{}
 		}
 		return Value{kind: valueObject, value: value.object}
 	case Object:
+		if value.object == nil {
+			return Value{}
+		}
 		return Value{kind: valueObject, value: value.object}
 	case referencer: // reference is an interface (already a pointer)
 		return Value{kind: valueReference, value: value}
